@@ -230,6 +230,11 @@ impl<'tcx> Cx<'tcx> {
                 v.push(("val", J::I(val)));
             }
         }
+        if let Const::Unevaluated(uv, _) = c.const_ {
+            if let Some(pi) = uv.promoted {
+                v.push(("promoted", J::I(pi.index() as i128)));
+            }
+        }
         v.push(("s", s(with_no_trimmed_paths!(format!("{}", c.const_)))));
         J::O(v)
     }
@@ -452,6 +457,46 @@ impl<'tcx> Cx<'tcx> {
         J::O(v)
     }
 
+    fn blocks_json(&self, did: DefId, body: &Body<'tcx>) -> Vec<J> {
+        let tcx = self.tcx;
+        let mut blocks = vec![];
+        for (_bb, data) in body.basic_blocks.iter_enumerated() {
+            let mut stmts = vec![];
+            for st in &data.statements {
+                match &st.kind {
+                    StatementKind::Assign(b) => {
+                        let (p, rv) = &**b;
+                        stmts.push(J::O(vec![
+                            ("s", s("assign")),
+                            ("place", self.place(body, p)),
+                            ("rv", self.rvalue(did, body, rv)),
+                            ("line", J::I(tcx.sess.source_map().lookup_char_pos(st.source_info.span.lo()).line as i128)),
+                            ("exp", J::B(st.source_info.span.from_expansion())),
+                        ]));
+                    }
+                    StatementKind::SetDiscriminant { place, variant_index } => {
+                        stmts.push(J::O(vec![
+                            ("s", s("setdiscr")),
+                            ("place", self.place(body, place)),
+                            ("vi", J::I(variant_index.index() as i128)),
+                        ]));
+                    }
+                    StatementKind::Intrinsic(i) => {
+                        stmts.push(J::O(vec![("s", s("intrinsic")), ("dbg", s(format!("{:?}", i)))]));
+                    }
+                    _ => {}
+                }
+            }
+            let term = self.terminator(did, body, data.terminator());
+            blocks.push(J::O(vec![
+                ("stmts", J::A(stmts)),
+                ("term", term),
+                ("cleanup", J::B(data.is_cleanup)),
+            ]));
+        }
+        blocks
+    }
+
     fn body(&self, ldid: LocalDefId) -> Option<J> {
         let tcx = self.tcx;
         let did = ldid.to_def_id();
@@ -510,42 +555,18 @@ impl<'tcx> Cx<'tcx> {
             }
             v.push(("upvars", J::A(ups)));
         }
-        let mut blocks = vec![];
-        for (_bb, data) in body.basic_blocks.iter_enumerated() {
-            let mut stmts = vec![];
-            for st in &data.statements {
-                match &st.kind {
-                    StatementKind::Assign(b) => {
-                        let (p, rv) = &**b;
-                        stmts.push(J::O(vec![
-                            ("s", s("assign")),
-                            ("place", self.place(body, p)),
-                            ("rv", self.rvalue(did, body, rv)),
-                            ("line", J::I(tcx.sess.source_map().lookup_char_pos(st.source_info.span.lo()).line as i128)),
-                            ("exp", J::B(st.source_info.span.from_expansion())),
-                        ]));
-                    }
-                    StatementKind::SetDiscriminant { place, variant_index } => {
-                        stmts.push(J::O(vec![
-                            ("s", s("setdiscr")),
-                            ("place", self.place(body, place)),
-                            ("vi", J::I(variant_index.index() as i128)),
-                        ]));
-                    }
-                    StatementKind::Intrinsic(i) => {
-                        stmts.push(J::O(vec![("s", s("intrinsic")), ("dbg", s(format!("{:?}", i)))]));
-                    }
-                    _ => {}
-                }
-            }
-            let term = self.terminator(did, body, data.terminator());
-            blocks.push(J::O(vec![
-                ("stmts", J::A(stmts)),
-                ("term", term),
-                ("cleanup", J::B(data.is_cleanup)),
-            ]));
-        }
+        let blocks = self.blocks_json(did, body);
         v.push(("blocks", J::A(blocks)));
+        // promoted constants (e.g. `&PDUType::PdutypeDatapdu` used in comparisons)
+        let mut proms = vec![];
+        for (_pi, pbody) in tcx.promoted_mir(did).iter_enumerated() {
+            let mut plocals = vec![];
+            for (_l, d) in pbody.local_decls.iter_enumerated() {
+                plocals.push(J::O(vec![("ty", s(self.ty(d.ty))), ("name", J::Null), ("int", self.int_info(d.ty))]));
+            }
+            proms.push(J::O(vec![("locals", J::A(plocals)), ("blocks", J::A(self.blocks_json(did, pbody)))]));
+        }
+        v.push(("promoted", J::A(proms)));
         Some(J::O(v))
     }
 
